@@ -94,10 +94,15 @@ let () =
               | None -> print_endline "stuck ? ?")
     | "failpos" ->
         let d = parse_dfa () in
-        if fail_entry_ok d then print_endline "ok"
-        else (match fail_entry_witness d with
-              | Some (q, b) -> Printf.printf "failentry %d %d\n" (int_of_nat q) (int_of_n b)
-              | None -> print_endline "failentry ? ?")
+        if not (fail_entry_ok d) then
+          (match fail_entry_witness d with
+           | Some (q, b) -> Printf.printf "failentry %d %d\n" (int_of_nat q) (int_of_n b)
+           | None -> print_endline "failentry ? ?")
+        else if not (fail_sticky_ok d) then
+          (match fail_sticky_witness d with
+           | Some (q, b) -> Printf.printf "failsticky %d %d\n" (int_of_nat q) (int_of_n b)
+           | None -> print_endline "failsticky ? ?")
+        else print_endline "ok"
     | "endsafe" ->
         let d = parse_dfa () in
         if end_safe d then print_endline "ok"
